@@ -7,6 +7,9 @@ export GOFLAGS=-mod=mod GOPROXY=off GOSUMDB=off GOTOOLCHAIN=local
 ID=$1; PATCH=$2; DEMO=$3; NOTES=$4
 WT=/tmp/cs-$ID
 OUT=/verif/seeded/$ID
+# private temp dir: one test of the repository uses a fixed path under $TMPDIR, concurrent suite runs would collide
+export TMPDIR=/tmp/cs-$ID.tmpdir
+mkdir -p $TMPDIR
 mkdir -p $OUT
 cp "$PATCH" $OUT/patch.diff; cp "$DEMO" $OUT/demo_test.go; cp "$NOTES" $OUT/notes.md 2>/dev/null
 git -C /repo worktree remove --force $WT 2>/dev/null
@@ -45,4 +48,4 @@ res $C suite_with_patch "exit $RS"
 [ $RS -ne 0 ] && res $C suite_failures "$(grep -E '^(--- FAIL|FAIL)' /tmp/cs-$ID.suite.log | head -5 | tr '\n' ' ')"
 if [ $RW -ne 0 ] && [ $RO -eq 0 ] && [ $RS -eq 0 ]; then res $C confirmed yes; else res $C confirmed no; fi
 cd /; git -C /repo worktree remove --force $WT
-rm -f /tmp/cs-$ID.*
+rm -rf /tmp/cs-$ID.*
